@@ -6,7 +6,7 @@ Open Scope R_scope.
 
 Section Round.
   Variable pfwd pinv : R * R -> option (R * R).
-  Variable fac : cu -> R.
+  Variable fac : cu -> R * R.
   Variable geographic : bool.
   Variable crs_units : cu.
   Local Notation create := (create_area_def RO pfwd pinv fac geographic crs_units).
